@@ -272,6 +272,13 @@ static void op_rw(const Op& op) {
     if (miov.empty()) { struct iovec v; v.iov_base = (void*)""; v.iov_len = 0; miov.push_back(v); }
     ssize_t mr = 0; int merr = 0;
     const std::string& f = op.fault;
+    if (fired && f == "malloc_fail") {
+        // the call could not marshal its vector: it has to say so (NOMEM) and must not have touched file, position or buffers
+        if (r != 48) V("errno", nm + ":injected-allocation-failure-not-reported", "returned " + std::to_string(r) + " (" + wasi_errno_name((int)r) + ") expected NOMEM");
+        for (auto& c : X->calls) if (c.call == "readv" || c.call == "writev" || c.call == "read" || c.call == "write") V("data", nm + ":transfer-after-allocation-failure", "host call " + c.call);
+        check_position(op, fd, nm);
+        return;
+    }
     size_t seg_cut = SIZE_MAX;
     if (fired && g_nouio && f != "lseek_fail") {
         // fault injected at one segment's read()/write() inside the SUT's own vector emulation: an interrupted call may be retried, an
